@@ -323,3 +323,94 @@ def eq_facts(conds):
         elif t[0] == "eq":
             out.append(("==" if v else "!=", t[1], t[2]))
     return out
+
+
+ELEM = ("elem",)
+
+
+def _fn_body(fb, f, depth=3):
+    """the value a closure / fn item returns for the argument ELEM (one non-panicking return path), or None"""
+    from .symex import Engine, subst
+    if not isinstance(f, tuple) or not f:
+        return None
+    if f[0] == "fn":
+        it = fb.items.get(f[1])
+        if it is None or it.kind not in ("Fn", "AssocFn") or it.arg_count != 1:
+            return ("call", f[1], (ELEM,))
+        eng = Engine(fb, inline=lambda i: False)
+        ps = ret_paths(eng.run(it, args=[ELEM]))
+        return eng.value_of(ps[0].store, ps[0].ret) if len(ps) == 1 else None
+    if f[0] == "closure":
+        it = fb.items.get(f[1])
+        if it is None:
+            return None
+        eng = Engine(fb, inline=lambda i: False)
+        ps = ret_paths(eng.run(it, args=[None, ELEM]))
+        if len(ps) != 1:
+            return None
+        return (eng, ps[0])
+    return None
+
+
+def seq_map(fb, t, paths=None):
+    """If the vector term `t` is the element-wise image of a sequence, return (sequence, body) with `body` the term computed for the
+    element ELEM - whichever way the source spells it: `seq.iter().map(f).collect()`, `out.extend(seq.iter().copied().map(f))`,
+    `seq.iter().for_each(|v| out.push(f(*v)))` and, when the paths of the enclosing function are given, `for v in seq { out.push(f(v)) }`
+    (out starting empty). None when `t` has none of these shapes."""
+    from .symex import subst
+    n = 0
+    while isinstance(t, tuple) and t and t[0] == "cat" and len(t) == 2 and n < 3:
+        t = t[1]
+        n += 1
+    if not isinstance(t, tuple) or not t:
+        return None
+
+    def strip(seq):
+        k = 0
+        while isinstance(seq, tuple) and seq and seq[0] == "call" and re.search(r"::(iter|into_iter|copied|cloned)$", seq[1]) and seq[2] and k < 4:
+            seq = seq[2][0]
+            k += 1
+        return seq
+
+    if t[0] == "call" and isinstance(t[1], str) and t[1].endswith("Iterator::map") and len(t[2]) == 2:
+        seq, f = strip(t[2][0]), t[2][1]
+        b = _fn_body(fb, f)
+        if b is None:
+            return None
+        if isinstance(b, tuple) and len(b) == 2 and hasattr(b[1], "store"):
+            eng, p = b
+            b = eng.value_of(p.store, p.ret)
+        return (seq, b)
+    if t[0] == "upd" and isinstance(t[1], str) and t[1].endswith("Iterator>::for_each") and isinstance(t[2], tuple) and t[2][0] == "capture" and len(t[3]) == 2:
+        seq, f = strip(t[3][0]), t[3][1]
+        b = _fn_body(fb, f)
+        if not (isinstance(b, tuple) and len(b) == 2 and hasattr(b[1], "store")):
+            return None
+        eng, p = b
+        pushes = [e[3] for e in p.trace if e[0] == "push"] + \
+                 [e[2][1] for e in p.trace if e[0] == "call" and e[1].endswith("Vec::<T, A>::push") and len(e[2]) == 2 and contains(e[2][0], P(1))]
+        others = [e for e in p.trace if e[0] in ("write", "append") or (e[0] == "call" and e[5] and not e[1].endswith("Vec::<T, A>::push"))]
+        if len(pushes) != 1 or others:
+            return None
+        return (seq, pushes[0])
+    if t[0] == "phi" and t[4] == ("vecnew",) and paths is not None:
+        backs = [p for p in paths if p.kind == "backedge" and p.loop == t[2]]
+        out = None
+        for b in backs:
+            v = carried_of(b, t)
+            if not (isinstance(v, tuple) and v and v[0] == "push" and v[1] == t):
+                return None
+            val = v[2]
+            # the element: the item of the slice iterator the loop runs over
+            items = [s for s in subterms(val) if s[0] == "unwrap" and isinstance(s[1], tuple) and s[1] and s[1][0] == "call"
+                     and re.search(r"(slice::Iter<'a, T>|vec::IntoIter<T, A>|Copied<I>|Cloned<I>) as std::iter::Iterator>::next$", s[1][1])]
+            if len(items) != 1:
+                return None
+            it = items[0][1][2][0]
+            seq = strip(it[4]) if isinstance(it, tuple) and it and it[0] == "phi" else strip(it)
+            r = (seq, subst(val, {items[0]: ELEM}))
+            if out is not None and out != r:
+                return None
+            out = r
+        return out
+    return None
